@@ -127,7 +127,9 @@ Definition chk_search (x l : list Qc) (r : list (obs (list Z))) : bool :=
                 out.append({"val": [int(v) for v in r]})
             except Exception as e:
                 out.append({"exc": exn_name(e)})
-        return {"res": out}
+        # the searches only read: the arrays of the caller are what they were (all six calls above ran on the same two arrays,
+        # so a call that rearranged them would also have changed the later answers)
+        return {"res": out, "input_mutated": not (np.array_equal(x, np.array(case["x"], dtype=float)) and np.array_equal(l, np.array(case["lookup"], dtype=float)))}
 
     def coq(self, case, obs):
         def enc(r):
@@ -140,6 +142,9 @@ Definition chk_search (x l : list Qc) (r : list (obs (list Z))) : bool :=
 
     def oracle(self, case, obs):
         fails = []
+        if obs.get("input_mutated"):
+            fails.append(Failure(aspect="input-mutated", what="a search modified the arrays handed in: x=%s lookup=%s" % (case["x"], case["lookup"]),
+                                 signature={"aspect": "input-mutated"}))
         if case["kind"] == "empty":
             return fails
         if case["kind"] == "unknown-strategy":
